@@ -24,6 +24,7 @@ def run(tier, seed, replay=None):
             ck.mc(DIR, "Bnb", "MC_bnb2.cfg", timeout=14400)
         cases = [drv.gen(rng) for _ in range(250 if tier == "quick" else 4000)]
         cases += [drv.gen_pairrows(rng) for _ in range(150 if tier == "quick" else 2500)]
+        cases += [drv.gen_switch(rng) for _ in range(120 if tier == "quick" else 2000)]
     hist_replay = None
     if replay and "history" in cases[0]:
         hist_replay, cases = cases[0], []
